@@ -6,6 +6,7 @@ import (
 	"fmt"
 	"strings"
 	"sync"
+	"sync/atomic"
 	"time"
 
 	"go.mongodb.org/mongo-driver/bson"
@@ -62,6 +63,7 @@ type HRec struct {
 	Tag            string
 	Inv, Ret       int64 // global logical clock
 	Pub0, Pub1     int64 // commits published at invocation / at return
+	OwnCommit      bool  // the call itself published a commit (it ran on its own transaction, not the session's)
 	Res            OpResult
 }
 
@@ -73,25 +75,44 @@ type FaultStore struct {
 	inner lungo.Store
 	next  string
 	Calls int
+	hook  func(point string, args ...interface{})
 }
 
 func (s *FaultStore) setNext(k string) { s.mu.Lock(); s.next = k; s.mu.Unlock() }
 
 func (s *FaultStore) Load() (*lungo.Catalog, error) { return s.inner.Load() }
 
+// Store is itself a pair of parking points (pseudo hooks store.enter / store.exit, effective only
+// when called from an actor goroutine): the controller can run other actors while a writer is
+// INSIDE the store write of its commit.  On correct code every other writer is then blocked and
+// readers see the old catalog (the model takes store+publish as one step).
 func (s *FaultStore) Store(c *lungo.Catalog) error {
 	s.mu.Lock()
 	k := s.next
 	s.next = ""
 	s.Calls++
+	hook := s.hook
 	s.mu.Unlock()
+	if hook != nil {
+		hook("store.enter")
+	}
 	switch k {
 	case "storeFail":
 		return errStoreFault
 	case "storePanic":
 		panic("injected store panic")
 	}
-	return s.inner.Store(c)
+	err := s.inner.Store(c)
+	if hook != nil {
+		hook("store.exit")
+	}
+	return err
+}
+
+func (s *FaultStore) setHook(h func(point string, args ...interface{})) {
+	s.mu.Lock()
+	s.hook = h
+	s.mu.Unlock()
 }
 
 // World is one engine with its sessions, streams and transaction handles.
@@ -125,11 +146,16 @@ type WorldOptions struct {
 	Opts     lungo.Options
 	Catalog  *lungo.Catalog // initial catalog (nil: empty)
 	NoSeed   bool           // do not insert the counter document
+	FilePath string         // non-empty: use a lungo.FileStore on this path instead of the memory store
 }
 
 // NewWorld opens an engine on a fault-injecting memory store and seeds the counter document.
 func NewWorld(o WorldOptions) (*World, error) {
-	ms := lungo.NewMemoryStore()
+	var ms lungo.Store = lungo.NewMemoryStore()
+	if o.FilePath != "" {
+		// a real (slow) store: the catalog is BSON-encoded and written atomically to a file
+		ms = lungo.NewFileStore(o.FilePath, 0600)
+	}
 	if o.Catalog != nil {
 		_ = ms.Store(o.Catalog)
 	}
@@ -231,7 +257,7 @@ func (w *World) record(h HRec) {
 // modelCall gives the model-level call of a simple op.
 func modelCall(op Op) CallInfo {
 	switch op.Kind {
-	case "ins", "inc", "fau", "upd0", "dup", "bad", "del", "drop", "dropdb":
+	case "ins", "ins3", "inc", "fau", "upd0", "dup", "bad", "del", "drop", "dropdb":
 		return CallInfo{Call: "useTx", Lock: true, Sess: op.Sess, Op: op.Kind}
 	case "find":
 		return CallInfo{Call: "useTx", Lock: false, Sess: op.Sess, Op: op.Kind}
@@ -306,11 +332,13 @@ func (w *World) call(ctx context.Context, a *actor, idx, sub int, op Op, inWtx b
 	h := HRec{Actor: a.id, Op: idx, Sub: sub, Kind: op.Kind, Sess: op.Sess, InWtx: inWtx, Tag: tag}
 	h.Inv = c.Tick()
 	h.Pub0 = c.Published()
+	own0 := atomic.LoadInt64(&a.pubs)
 	defer func() {
 		if p := recover(); p != nil {
 			res.Cls = "panic"
 			res.Panic = fmt.Sprint(p)
 		}
+		h.OwnCommit = atomic.LoadInt64(&a.pubs) > own0
 		h.Pub1 = c.Published()
 		h.Ret = c.Tick()
 		h.Res = *res
@@ -328,6 +356,21 @@ func (w *World) call(ctx context.Context, a *actor, idx, sub int, op Op, inWtx b
 	case "ins":
 		err = with(func(ctx context.Context) error {
 			_, e := w.coll(op).InsertOne(ctx, bson.D{{Key: "_id", Value: tag}, {Key: "tag", Value: tag}})
+			return e
+		})
+		res.Wrote = err == nil
+	case "ins3":
+		// ONE commit that appends three events
+		err = with(func(ctx context.Context) error {
+			docs := []interface{}{}
+			for i := 0; i < 3; i++ {
+				t := fmt.Sprintf("%s#%d", tag, i)
+				docs = append(docs, bson.D{{Key: "_id", Value: t}, {Key: "tag", Value: t}})
+			}
+			r, e := w.coll(op).InsertMany(ctx, docs)
+			if r != nil {
+				res.Matched = int64(len(r.InsertedIDs))
+			}
 			return e
 		})
 		res.Wrote = err == nil
